@@ -44,7 +44,7 @@ CHECKS.update({
          "Sampled histories of port writes (direct and through running helper programs; every ICR source x polarity, UDR, UOR, 0xF3) interleaved with jumper/UIO/voltage/digital-input changes drawn from DAC grid points +-1 ulp, clamp edges and non-finite values; complete board status incl. interrupt flip-flop/source flag and fan period compared with R-BOARD after every operation; thorough sweeps all 2^32 bit patterns through each voltage setter.",
          "Trusted: R-BOARD written from the statement; DASR.FAN and DAISR bits 2-7 masked; UOR-on-input-pin effect and sticky source flag mirrored de facto; fan period within +-1 LSB.", "DESIGN.md 6 C14"),
  "C07": ("fault_enumeration", "deterministic simulation with crash/restart injection: each kind of reset is injected after every prefix of a seeded history and at every clock edge inside its bursts; durable state (RAM, physical board inputs) must survive, everything else must equal a machine constructed afresh",
-         "Model-free: every prefix of each history x {cpu_reset, master_reset, load}: documented getters at power-on values; RAM/inputs/board/limits/step mode untouched as documented; full == against a machine built from Machine::new through public setters (covers every private field: pending writes, wait flag, micro-address, ALU latch, key flip-flop, timer); a reloaded machine runs cycle-for-cycle like Machine::new_with_program for a follow-up program.",
+         "Model-free: every prefix of each history x {cpu_reset, master_reset, load}: documented getters at power-on values; RAM/inputs/board/limits/step mode untouched as documented; full == against a machine built from Machine::new through public setters (covers every private field: pending writes, wait flag, micro-address, ALU latch, key flip-flop, timer); a reloaded machine runs cycle-for-cycle like Machine::new_with_program for a follow-up program. One run in forty sweeps a complete register-value plane instead: all 65 536 pairs of bytes in the UART control register and the interrupt mask under one UART data byte (all 256 within a quick run, i.e. all 2^24 triples), each followed by cpu_reset and master_reset.",
          "Trusted: Machine::clone/PartialEq; values written to the getter-less UART/timer registers are known only for direct writes (program-driven ones are detected on the bus and disable the constructed-equality oracle for that history).", "DESIGN.md 6 C07"),
  "C12": ("exploration", "deterministic simulation: schedules of injected key interrupts and CPU resets over a cycle budget plus file faults; the real runner (in-process) and the real CLI binary (subprocess: argv + file in, text + status out) against the loop the statement spells out",
          "In-process: RunnerConfig::run vs the stated loop on a second real Machine (full Machine equality and cycle count) for generated source programs x configurations x budgets {0, 1, small, halt time +-2, large} x interrupt/reset schedules with duplicates, cycle 0, beyond-the-end entries and same-cycle collisions; verify() for all 8 expectation subsets x matching / one mismatching value. Process: the real 2a-emulator built from the working tree, every byte flag in decimal/0x/0b, repeated --interrupt/--reset, verify sub-command, malformed values, missing file / directory / non-UTF-8 / syntax error / undefined label; printed Cycles/State/FE/FF and the exit status compared.",
